@@ -24,6 +24,15 @@ CLAIMS = {
     "C11": ("spec/AggOps.tla, Aggregator.tla, MC_C11.tla, TraceAggregator.tla",
             "TLC checks C11_Tests (NAME scan, EXPECTFAIL, add_test signature by position) over argument orders and value coincidences; replayed behaviours compare the function directives carrying CMakeTest/CTest warnings; traces validated by TLC.",
             "keywords in upper case as CMake requires; NAME at most once", "4 C11"),
+    "C13": ("spec/Walk.tla, MC_Walk.tla",
+            "TLC explores the walk of cminx.document (file system as state, listing order as environment choice, output directory inside or outside the input tree) and checks C13_PagesAreProcessedFiles, C13_OneIndexPerProcessedDir, C13_OnePagePerFile, C13_NoDivergence against the ideal computed from the initial tree; every terminal behaviour is materialised and run through the real cminx.document with the listing orders imposed; compared: the exact set of files under the output directory (or the documented files in stdout mode).",
+            "tree/pattern menus and bounds as in evidence; symlinks out of scope; string functions on names are inputs", "4 C13"),
+    "C14": ("spec/Walk.tla, MC_Walk.tla",
+            "TLC checks C14_ToctreeExact, C14_NoDangling, C14_Reachable, C14_IndexTitle on the specification; replayed behaviours compare title and toctree entries of every generated index.rst with the processed files/sub-directories and check closure on the files really written.",
+            "as C13; separators from {'.', '::'}", "4 C14"),
+    "C15": ("spec/Walk.tla, MC_Walk.tla",
+            "TLC checks C15_ProcessedIffNotMatched, C15_NotDescended, C15_ExcludedNotScanned, C15_WholeInputExcluded for every pattern set of the menu and every listing permutation; replayed behaviours compare the documented files with the non-excluded ones and the directories listed (os.walk roots, os.scandir calls) with the excluded set.",
+            "gitignore semantics of pathspec trusted; pattern forms: name, name/, *.ext, **/name, absolute path", "4 C15"),
     "C20": ("spec/RstWriter.tla, MC_C20.tla",
             "TLC checks HeadingFramed, IndentExact, OptionsFirst, OrderPreserved, ClearKeepsHeading and the action property ToTextIsPure on the API-history machine for all histories up to the bound; every history ending in to_text is replayed on the real RSTWriter, each serialisation compared character for character with the specification's Lines(), serialised twice and the document compared before/after.",
             "single-line field values; section/doctest/simple_table not exercised; bounds as in evidence", "4 C20"),
